@@ -527,6 +527,12 @@ func TestC12(t *testing.T) {
 					o.Attempts = append(o.Attempts, spec.C12Attempt{Cred: cn, Answered: ans, Err: trunc(es, 160), Ms: time.Since(t0).Milliseconds()})
 				}
 			} else {
+				if p.Proto == "grpc" {
+					// the host's broker has dialled before it accepts for the first time
+					if _, err := cli.Do("grpc-accept", "id", 551, "nonce", "warm"); err == nil {
+						vp.GRPCDialPing(g.Broker, 551, 20*time.Second, true)
+					}
+				}
 				h := vp.GRPCAcceptServe(g.Broker, 601, "hostlegit")
 				defer h.Stop()
 				m, err := cli.Do("grpc-dial", "id", 601, "timeoutMs", 20000)
@@ -581,6 +587,16 @@ func TestC12(t *testing.T) {
 			var before []string
 			for _, d := range dirs {
 				before = append(before, sockets(d)...)
+			}
+			if p.Launch == "runner-translate" {
+				// the host's broker has dialled before it accepts for the first time
+				if _, err := cli.Do("grpc-accept", "id", 551, "nonce", "warm"); err == nil {
+					vp.GRPCDialPing(g.Broker, 551, 20*time.Second, true)
+				}
+				before = nil
+				for _, d := range dirs {
+					before = append(before, sockets(d)...)
+				}
 			}
 			h := vp.GRPCAcceptServe(g.Broker, 601, "hostlegit")
 			defer h.Stop()
